@@ -318,6 +318,7 @@ func c05L1(t *vk.T, proto string, part, parts, budget int, env vk.Env) {
 	if c == nil {
 		return
 	}
+	defer c.close()
 	victim := c.ids[part%len(c.ids)]
 	tr, final, err := c05Transcript(t, c, victim)
 	if err != nil {
@@ -380,6 +381,7 @@ func c05L2(t *vk.T, proto string, part, parts, budget int) {
 	if c == nil {
 		return
 	}
+	defer c.close()
 	victim := c.ids[part%len(c.ids)]
 	tr, _, err := c05Transcript(t, c, victim)
 	if err != nil {
